@@ -21,20 +21,20 @@ CLAIMS = {
          "Partial: the wire-level sum over all streams, Streams::open (hash map) in E1, 0-RTT remembered limits are outside (DESIGN §4 C05)."),
  "C06": ("Receiver-side limit enforcement kernels: Recv::ingest/reset verdict table (FLOW_CONTROL_ERROR / FINAL_SIZE_ERROR iff ...), validate_receive_id (STREAM_LIMIT_ERROR / STREAM_STATE_ERROR iff ...), credit return arithmetic (add_read_credits, set_receive_window, max_stream_data) for all 62-bit values; StreamsState::received / received_reset hand Recv::{ingest,reset} the connection's data_recvd and OUR local_max_data and charge exactly the new bytes (MIR->SMT).",
          "Partial: CRYPTO buffer limit, TooManyChunks, connection-wide buffered-bytes bound need Connection / the stream map (DESIGN §4 C06)."),
- "C07": ("The anti-amplification predicate: not blocked implies validated or total_sent + bytes <= 3 * total_recvd, for all counters below 2^62.",
-         "Narrow: call sites in poll_transmit, crediting of received bytes, stateless reset sizing and the <1200-byte Initial rule are Connection/Endpoint code (DESIGN §4 C07)."),
- "C08": ("Idle-timeout negotiation (min of non-zero values, commutative) and the timer table (next_timeout is the minimum armed instant, expiry predicate, stop disarms only its timer) for all instants/values; Connection::close_inner (all timers stopped before the close timer is armed, a second close changes nothing), Connection::kill (state Drained, exactly one Drained event), the endpoint's reset-token bookkeeping on ResetToken events, and the idle timeout being negotiated against the received max_idle_timeout - decided on the MIR of the real Connection / Endpoint methods.",
+ "C07": ("The anti-amplification predicate (not blocked implies validated or total_sent + bytes <= 3 * total_recvd, all counters below 2^62); its call sites in Connection::poll_transmit as slices from an arbitrary state (a new datagram is started only after the predicate, asked about segment_size * num_datagrams + 1 bytes, said no; an MTU probe is built for a validated path only); the first Initial credits exactly its datagram; datagrams from other addresses are not credited; stateless resets are smaller than what provoked them; an Initial in a datagram below 1200 bytes gets no response and no state.",
+         "Partial: the accounting of total_sent at the end of poll_transmit and the path-challenge / off-path response datagrams are not covered (DESIGN §4 C07)."),
+ "C08": ("Idle-timeout negotiation (min of non-zero values, commutative) and the timer table (next_timeout is the minimum armed instant, expiry predicate, stop disarms only its timer) for all instants/values; Connection::close_inner (all timers stopped before the close timer is armed, a second close changes nothing), Connection::kill (state Drained, exactly one Drained event), the endpoint's reset-token bookkeeping on ResetToken events, and the idle timeout being negotiated against the received max_idle_timeout - decided on the MIR of the real Connection / Endpoint methods; the tail of handle_packet (a connection that becomes drained stops its close timer), one iteration of handle_timeout for every timer (no arm re-enables idle-timer resets), reset_idle_timeout / set_close_timer (what the timers are armed with), Endpoint::{accept,refuse,ignore} release the attempt's route and buffer.",
          "Narrow: lifecycle state transitions, exactly-once reporting, drain timing and endpoint forgetting are Connection/Endpoint code (DESIGN §4 C08)."),
- "C09": ("Remote CID bookkeeping: one step of CidQueue::{insert,next} from an arbitrary ring state preserves the invariant (active CID is one the peer issued and has not retired, retired ranges never include it, no unwrap fires); Connection::update_rem_cid queues exactly the retired range on the Data space and announces the new CID's reset token; Endpoint::handle_event(ResetToken) removes the stored pair and inserts the reported one for the same handle.",
+ "C09": ("Remote CID bookkeeping: one step of CidQueue::{insert,next} from an arbitrary ring state preserves the invariant (active CID is one the peer issued and has not retired, retired ranges never include it, no unwrap fires); Connection::update_rem_cid queues exactly the retired range on the Data space and announces the new CID's reset token; Endpoint::handle_event(ResetToken) removes the stored pair and inserts the reported one for the same handle; one iteration of Endpoint::new_cid never re-points an existing route; Endpoint::accept / handle_first_packet install and remove Initial routes consistently.",
          "Narrow: routing tables (hash maps), CidState, generators are outside (DESIGN §4 C09)."),
  "C10": ("Encode/decode round-trips and decoder totality for varints (all values), packet numbers (whole window), connection IDs (all lengths), frame-type/ECN/stream-id packing, transport parameters and per-frame codecs within stated payload bounds.",
          "Bounds: payloads <= 4-8 bytes, structure (frame type, CID lengths, buffer length) enumerated concretely; HashedConnectionIdGenerator outside (DESIGN §4 C10)."),
  "C11": ("Send-half and Recv-half operations compared against the QUIC stream state table from every abstract state (Ready / DataSent{acked?} / ResetSent x stopped?; Recv{size?} / ResetRecvd x stopped?).",
          "Partial: application events, stream-count release and Chunks need the stream hash maps (DESIGN §4 C11)."),
- "C12": ("Built-in controllers never report a window below two datagrams after any single event from any state satisfying the invariant; in-flight accounting insert/remove is an exact inverse; ACKs of skipped packet numbers are rejected.",
-         "Partial: the gate in poll_transmit and exactly-once accounting over ack/loss/discard paths are Connection code (DESIGN §4 C12)."),
- "C13": ("MTU discovery as an inductive invariant: from EVERY state satisfying the representation invariant, one step of poll_transmit / on_acked / on_probe_lost / peer-limit reception / black-hole detection keeps probes within peer and configured limits, raises the estimate only on an acked probe of exactly that size, never drops it below min(min_mtu, peer limit), keeps at most one probe in flight and makes the search terminate; the peer's max_udp_payload_size reaches MTU discovery saturated to u16 (set_peer_params, migrate); DATAGRAM frames are written and admitted only within the current MTU (e2_dgram_write, e2_datagrams_max_size).",
-         "Partial: every datagram size decision in poll_transmit / PacketBuilder (padding, loss-probe clamp, GSO) is outside (DESIGN §4 C13)."),
+ "C12": ("Built-in controllers never report a window below two datagrams after any single event from any state satisfying the invariant; in-flight accounting insert/remove is an exact inverse; ACKs of skipped packet numbers are rejected; Connection::on_packet_acked removes exactly the acknowledged packet once; following a Retry discards the old Initial space before a new one is installed; poll_transmit starts an ack-eliciting non-probe datagram only below the congestion window (slices).",
+         "Partial: loss detection (detect_lost_packets' loops), discard paths other than Retry and pluggable controllers are outside (DESIGN §4 C12)."),
+ "C13": ("MTU discovery as an inductive invariant: from EVERY state satisfying the representation invariant, one step of poll_transmit / on_acked / on_probe_lost / peer-limit reception / black-hole detection keeps probes within peer and configured limits, raises the estimate only on an acked probe of exactly that size, never drops it below min(min_mtu, peer limit), keeps at most one probe in flight and makes the search terminate; the peer's max_udp_payload_size reaches MTU discovery saturated to u16 (set_peer_params, migrate); DATAGRAM frames are written and admitted only within the current MTU (e2_dgram_write, e2_datagrams_max_size); a packet is padded to the segment size only within the datagram's own budget (loss probes stay at 1200 bytes); a detected black hole purges every queued datagram that no longer fits (slices of poll_transmit / detect_lost_packets).",
+         "Partial: PacketBuilder's own size arithmetic and GSO batching in poll_transmit are outside (DESIGN §4 C13)."),
  "C14": ("Token validation kernels: for a genuine token presented from a symbolic address at a symbolic time, 'validated' implies address (and port for Retry) equality, lifetime and (NEW_TOKEN) log acceptance, the reuse log being consulted with the token's own nonce / issue time; constant-time token comparison = equality; the client accepts the server's transport parameters only if initial_src_cid, original_dst_cid and retry_src_cid echo the connection IDs actually used (RFC 9000 7.3, all 20 CID bytes symbolic).",
          "Assumes AEAD authenticity (stub accepts exactly what it sealed); BloomTokenLog, TokenMemoryCache, Retry integrity tag, CID echo check are outside (DESIGN §4 C14)."),
  "C15": ("Three kernels of migration safety: Connection::migrate leaves the new path unvalidated with a pending challenge and the validation timer armed, and replaces the path to fall back to only by a path that was not itself awaiting validation (every connection state, MIR->SMT); a datagram from an address other than the established one is ignored (nothing credited, counted or processed) unless this is a server whose configuration permits migration - decided for every outcome of the address comparison and of remote_may_migrate; and a path created for a migrated peer starts unvalidated with zeroed amplification counters and nothing in flight, whatever the previous path's state.",
@@ -78,7 +78,7 @@ def main():
                     "design_ref": "DESIGN.md §4 %s" % p,
                 },
                 "level_note": note + " Trusted base: rustc/Kani/CBMC/SAT solver, the no-op tracing shim, the representation invariants and preconditions written in /verif/hooks (listed per obligation in the evidence file).",
-                "technique": "solver-based checking of the real code: Kani/CBMC symbolic execution of harness bodies compiled inside the crate, all inputs symbolic, unwinding assertions on, kani::cover vacuity witnesses, native replay of counterexamples" + ("; nightly MIR -> SMT-LIB -> z3 (cvc5 cross-check)" if qs else ""),
+                "technique": "solver-based checking of the real code: Kani/CBMC symbolic execution of harness bodies compiled inside the crate, all inputs symbolic, unwinding assertions on, kani::cover vacuity witnesses, native replay of counterexamples" + ("; nightly MIR of the current tree -> path-wise SMT-LIB -> z3 (cvc5 cross-check in thorough): whole loop-free functions, single loop iterations, or source-located slices of large functions executed from an arbitrary state; every candidate replayed natively on real Connection / Endpoint objects" if qs else ""),
             })
         else:
             reason = NOT_APPLICABLE.get(p) or ("no solver obligation built yet for this property (planned kernels: %s)" % (CLAIMS.get(p, ("", ""))[0][:160]))
